@@ -55,6 +55,10 @@ def classify(h, first):
 def numba_matrix(run):
     """USE_NUMBA on == off, for every order of first use (compile order) and cache state."""
     thorough = run.tier == "thorough"
+    if os.environ.get("PYVC_SKIP_NUMBA_MATRIX"):
+        # only used by tools/refac_eval.py for edits that do not touch aggregate.py (never by a registered command)
+        run.bound = "skipped on request (PYVC_SKIP_NUMBA_MATRIX)"
+        return
     run.max_failures = 10 ** 6          # classify every disagreement (known findings are matched per class)
     ref = run_worker(HELPER_NAMES, False, None)["res"]
     orders = [["max", "first"], HELPER_NAMES]
